@@ -28,11 +28,12 @@ MUTANTS = [  # (module, cfg, invariant that must be reported violated)
 FAMILY = ["C01", "C02", "C03", "C07", "C08", "C09", "C10", "C18", "C19"]
 
 
-def build_items(tier, seed):
+def build_items(tier, seed, wd):
+    import configs
+
     paths = corpus.all_vhd()
     items = []
     tid = 0
-    rnd = random.Random(seed)
 
     def add(p, args, tag):
         nonlocal tid
@@ -41,7 +42,6 @@ def build_items(tier, seed):
 
     for p in paths:
         add(p, ["--fix"], "default")
-    styles = ["jcl", "indent_only"]
     n_style = 150 if tier == "quick" else len(paths)
     sample = corpus.stratified_sample(paths, n_style, seed)
     for p in sample:
@@ -49,6 +49,18 @@ def build_items(tier, seed):
     if tier == "thorough":
         for p in sample:
             add(p, ["--fix", "--style", "indent_only"], "indent_only")
+    # option sweep: settings the rules' own unit tests use, all rules at once (harness/configs.py)
+    table, inputs = configs.harvest()
+    nsweeps = 2 if tier == "quick" else min(12, configs.max_sweeps(table))
+    for k in range(1, nsweeps + 1):
+        cfg, rules = configs.sweep_config(table, k)
+        cfgfile = configs.write_config(cfg, os.path.join(wd, "sweep%d.json" % k))
+        if tier == "quick":
+            files = sorted(set(f for r in rules for f in inputs.get(r, []) if f.endswith("_test_input.vhd")))
+        else:
+            files = sorted(set(f for r in rules for f in inputs.get(r, [])))
+        for p in files:
+            add(p, ["--fix", "-c", cfgfile], "sweep%d" % k)
     return items
 
 
@@ -86,11 +98,11 @@ def run_design(tier):
 def _collect(tier, cd):
     t0 = time.time()
     seed = common.seed()
-    items = build_items(tier, seed)
     wd = orchestrate.workdir("fixfam_" + tier)
+    items = build_items(tier, seed, wd)
     design = run_design(tier)
     t1 = time.time()
-    outs = orchestrate.run_shards(items, wd, shards=32, probe=True, reparse=True, rounds=(2 if tier == "quick" else 4))
+    outs = orchestrate.run_shards(items, wd, shards=32, probe=True, reparse=True, rounds=(2 if tier == "quick" else 4))  # per item: only items tagged "default" repeat
     t2 = time.time()
     results = tlc.validate_shards(outs, module="FixTrace", parallel=16)
     t3 = time.time()
